@@ -96,6 +96,11 @@ CLAIMS = {
              "no panic escapes: it becomes Result.Err (resp. one diagnostic at a valid position) carrying the INTERNAL PANIC prefix and the panic value; returned errors are wrapped, not lost.",
         note="Partial: the containment clause only. Totality for every package (termination, no internal error at all) is outside this technique; see evidence.coverage.outside_bounds.",
     ),
+    "C14": dict(
+        text="For explanation chains up to length 3 with symbolic positions the recorded conflict has every flow step and its reported position is the last step of the non-nil flow; and for every "
+             "line/column within the bound toPos yields a valid token.Pos that the file set maps back to the same file and line, for real files, fake archive files (padded on demand) and files the set did not know.",
+        note="Partial: report position and position mapping only; existence of files on disk, drivers and path printing are environment. Executes the real go/token file-set code.",
+    ),
 }
 
 # reasons for every property not (yet) claimed
@@ -104,5 +109,5 @@ NOT_APPLICABLE = {
     "C16": "The quantifier is goroutine interleavings over the whole analysis heap; symx has no thread model and no installed solver-based engine explores Go schedules.",
     "C18": "Everything the property depends on is environment (process cwd captured at init, filepath.Rel, driver cwd); after stubbing those by contract the residual repo code is a one-line wrapper.",
 }
-for _p in ["C14", "C20"]:
+for _p in ["C20"]:
     NOT_APPLICABLE.setdefault(_p, "kernel check not yet registered (in progress; see DESIGN.md section 4)")
